@@ -531,6 +531,39 @@ impl NetworkTopology {
         }
     }
 
+    /// The links of the execution graph and the address of every demultiplexer, sorted.
+    #[cfg(feature = "verif")]
+    #[allow(clippy::type_complexity)]
+    pub(crate) fn verif_dump(
+        &self,
+    ) -> (
+        Vec<(Coord, Coord, String, bool)>,
+        Vec<((u64, u64, u64), String, u16)>,
+    ) {
+        let mut links: Vec<_> = self
+            .next
+            .iter()
+            .flat_map(|(&(from, typ), to)| {
+                to.iter()
+                    .map(move |&(to, fragile)| (from, to, format!("{typ:?}"), fragile))
+            })
+            .collect();
+        links.sort();
+        let mut addresses: Vec<_> = self
+            .demultiplexer_addresses
+            .iter()
+            .map(|(d, (address, port))| {
+                (
+                    (d.coord.block_id, d.coord.host_id, d.prev_block_id),
+                    address.clone(),
+                    *port,
+                )
+            })
+            .collect();
+        addresses.sort();
+        (links, addresses)
+    }
+
     /// Finalize the topology and start mutliplexers and demultiplexers
     pub fn finalize(&mut self) {
         // drop all the senders/receivers making sure no dangling sender keep alive their network
